@@ -101,6 +101,28 @@ CHECKS = [
   'note': 'Trusted: as C01.  Only comparisons are involved, so paths partition the integers by order type; k <= 3 '
           '(quick) / 5 (thorough) blocks.',
   'design_ref': 'DESIGN.md section 4, C15'},
+ {'id': 'C17',
+  'text': 'K1: real ElectrumX.block_headers + DB.read_headers with start_height, count, cp_height and tip all symbolic '
+          'integers: returned count == min(count, 2016, headers available), bytes read == count*80 at start*80 inside '
+          'the file, proof only for last <= cp <= tip - one z3 obligation set per order-type path, all integers '
+          '(concrete companion K1c checks the hex).  K2: real SessionManager.limited_history / address_status / '
+          'hashX_subscribe / subscription_address_status / _notify_inner with MAX_SEND symbolic and histories at '
+          'limit-1, limit, limit+1: full history below, history-too-large at/above (also cached), nothing stored by a '
+          'failed subscribe, subscription dropped on notification with no status hash sent.',
+  'note': 'Stubs: headers file and header-merkle call record their arguments (K1); DB.limited_history returns the first '
+          'limit entries of a fixed history (K2).  Trusted: CPython, z3, symx proxies (int() shadow keeps symbolic '
+          'integers symbolic).',
+  'design_ref': 'DESIGN.md section 4, C17'},
+ {'id': 'C18',
+  'text': 'Real Daemon._send/_send_single/_send_vector/_post_json/_get_to_file/failover and the public calls against a '
+          'stub aiohttp session: every sequence of k <= 3 (quick) / 5-7 (thorough) faults over the 8 handled kinds '
+          '(solver-enumerated) x 1..3 URLs x 7 calls, with init_retry/max_retry symbolic reals (0 < init <= max <= 16 '
+          'init): result equals the stub daemon\'s answer position by position, genuine errors raise DaemonError '
+          'unretried, sleeps and URLs follow the back-off / round-robin rule for all parameter values, the block '
+          'file holds exactly the last attempt.',
+  'note': 'Stubs: aiohttp session, asyncio.sleep, worker thread, block file; logging no-op; reals stand for floats '
+          '(doubling/min/max exact).  Daemon assumed to answer batches in request order.',
+  'design_ref': 'DESIGN.md section 4, C18'},
 ]
 _TODO = 'check not built yet in this revision (planned, see DESIGN.md section 4); no claim is made'
-NOT_APPLICABLE = [{'property_id': f'C{n:02d}', 'reason': _TODO} for n in range(1, 20) if n not in (1, 2, 3, 4, 5, 12, 13, 14, 15)]
+NOT_APPLICABLE = [{'property_id': f'C{n:02d}', 'reason': _TODO} for n in range(1, 20) if n not in (1, 2, 3, 4, 5, 12, 13, 14, 15, 17, 18)]
